@@ -48,6 +48,11 @@ Theorem C41_attached : forall s0 pre now,
 Proof. exact attach_history. Qed.
 Print Assumptions C41_attached.
 
+(* the lookahead window is 5 minutes: the deadline handed to Get is floor((now + 300 s) / 1 s) *)
+Theorem C41_lookahead : forall now, deadline now = (now + 300 * 1000000000) / 1000000000.
+Proof. exact deadline_5min. Qed.
+Print Assumptions C41_lookahead.
+
 Theorem C41_provenance : forall s0 ops,
   prov_ok s0 (last_told ops None) (run_state (init s0) ops).
 Proof. exact provenance. Qed.
